@@ -19,8 +19,27 @@ def _load(prop):
     return importlib.import_module(f"vf.props.{prop.lower()}")
 
 
+def _watchdog(prop, tier):
+    """a hung check is a broken check: after a generous wall-clock budget give up with a harness error (exit 2) instead of
+    hanging forever.  This is not a verdict: it never prints VIOLATION."""
+    import threading
+
+    budget = float(os.environ.get("VERIF_WATCHDOG_S", "2400" if tier == "quick" else "21600"))
+
+    def fire():
+        sys.stderr.write(f"HARNESS-ERROR property={prop}: no result within {budget:.0f}s wall clock - giving up (inconclusive)\n")
+        sys.stderr.flush()
+        os._exit(EXIT_HARNESS)
+
+    t = threading.Timer(budget, fire)
+    t.daemon = True
+    t.start()
+    return t
+
+
 def _shard_worker(args):
     prop, tier, seed, shard, nshards = args
+    _watchdog(prop, tier)
     try:
         mod = _load(prop)
         col = Collector(prop, tier, seed, getattr(mod, "MATCHERS", None))
@@ -57,6 +76,7 @@ def main(argv=None):
         replay = argv[argv.index("--replay") + 1]
     seed = int(os.environ.get("VERIF_SEED", "1") or "1")
     t0 = time.time()
+    _watchdog(prop, tier)
     try:
         mod = _load(prop)
         col = Collector(prop, tier, seed, getattr(mod, "MATCHERS", None))
